@@ -2,13 +2,12 @@
 import itertools
 import wire
 from wire import mk_fmt, cells
-from curtsies.formatstring import fmtstr
 from props.common import chunks_for, reply_fmt, guarded, PALETTE
 
 PROP = "C09"
-MODULES = ["Curtsies.Properties.C09"]
+MODULES = ["Curtsies.Properties.C09", "Curtsies.Properties.C09Setitem"]
 RULE = ("exhaustive: every layout of 0..3 runs with run lengths 0..3 (distinct characters, run i formatted with palette "
-        "entry i) x 9 `new` values (+3 plain strs containing SGR sequences on the layouts of <=2 runs and <=3 characters) (empty str, fmtstr(''), FmtStr() without chunks, 1-char str, multi-char str with a "
+        "entry i) x 9 `new` values (+3 plain strs containing SGR sequences on the layouts of <=4 characters) (empty str, fmtstr(''), FmtStr() without chunks, 1-char str, multi-char str with a "
         "space, 2-char one-run FmtStr, 2-run FmtStr, 3-run FmtStr with an empty middle run, FmtStr with explicit-False "
         "attribute) x every 0 <= start <= end <= len+2 and end omitted; append of every `new` to every layout; plus "
         "the exhaustive sweep again over runs made of double-width, zero-width, combining and control characters (\\n, \\t); "
@@ -58,12 +57,18 @@ def mk_cases(ctx):
     for lens in all_layouts():
         ch = chunks_for(lens)
         n = sum(lens)
-        for new in NEWS + (ESC_NEWS if len(lens) <= 2 and n <= 3 else []):
+        for new in NEWS + (ESC_NEWS if n <= 4 else []):
             for start in range(0, n + 3):
                 cases.append(dict(op="splice", f=ch, new=new, start=start, end=None))
                 for end in range(start, n + 3):
                     cases.append(dict(op="splice", f=ch, new=new, start=start, end=end))
             cases.append(dict(op="append", f=ch, new=new))
+        # FmtStr.setitem(start, x) - the shim over setslice_with_length (an anchor of C09)
+        if max(lens + (0,)) <= 2:
+            for new in (("s", "X"), ("f", [("Y", {"fg": 35})]), ("s", ""), ("s", "XY"), ("f", [("P", {}), ("Q", {"bold": True})]), ("f", []),
+                        ("s", "\x1b[31mX\x1b[39m")):
+                for start in range(0, n + 3):
+                    cases.append(dict(op="setitem", f=ch, new=new, start=start))
     ctx.exhaustive.append("splice/append over all layouts of <=3 runs of lengths 0..3 x %d new values x all "
                           "0<=start<=end<=len+2 and end omitted: %d cases" % (len(NEWS), len(cases)))
     # runs containing double-width (U+FF25, U+FF48, U+FF49, U+754C), zero-width (U+0301, U+200B) and control characters
@@ -114,6 +119,8 @@ def enc_operand(new):
 
 
 def line(c):
+    if c["op"] == "setitem":
+        return "setitemop %s %d %s" % (wire.enc_chunks(c["f"]), c["start"], enc_operand(c["new"]))
     if c["op"] == "splice":
         return "spliceop %s %s %d %s" % (wire.enc_chunks(c["f"]), enc_operand(c["new"]), c["start"], wire.enc_optint(c["end"]))
     if c["op"] == "append":
@@ -127,6 +134,8 @@ def mk_new(new):
 
 
 def call(c, f, new):
+    if c["op"] == "setitem":
+        return f.setitem(c["start"], new)
     if c["op"] == "append":
         return f.append(new)
     if c["end"] is None:
@@ -147,6 +156,8 @@ def expected(c):
     cs = wire.cells_of_chunks(c["f"])
     k, v = c["new"]
     nc = [(ch, ()) for ch in v] if k == "s" else wire.cells_of_chunks(v)
+    if c["op"] == "setitem":        # in the oracle's domain only for 0 <= start < len and a one-character value
+        return cs[:c["start"]] + nc + cs[c["start"] + 1:]
     if c["op"] == "append":
         return cs + nc
     start = c["start"]
@@ -160,11 +171,17 @@ def snapshot(x):
     return (str(x), x.s, repr(x), tuple(cells(x)), len(x), tuple(id(ch) for ch in x.chunks))
 
 
-def oracle(c):
-    """-> None, or (what, footprint)"""
+def oracle(c, model_reply=None):
+    """-> None, or (what, footprint). model_reply: the Lean model's reply for this request - an independent parser's value of
+    what parsing the str operand explains (never the tree's own fmtstr)."""
     exp = expected(c)
     f = mk_fmt(c["f"])
     new = mk_new(c["new"])
+    if c["op"] == "setitem":
+        n = sum(len(s) for s, _ in c["f"])
+        nlen = len(c["new"][1]) if c["new"][0] == "s" else sum(len(s) for s, _ in c["new"][1])
+        if not (c["start"] < n and nlen == 1):
+            return None         # outside the oracle's statement (tie only): padding / rejection behaviour is C04's
     # touch the memoised views first so that a stale cache would be visible afterwards
     before_f, before_new = snapshot(f), snapshot(new)
     try:
@@ -179,16 +196,17 @@ def oracle(c):
     unchanged = after_f == before_f and chunks_f == [(s, dict(a)) for s, a in c["f"]] and after_new == before_new
     if got != exp:
         fp = None
-        if c["new"][0] == "s" and "\x1b[" in c["new"][1] and unchanged:
-            # D27 footprint: the only deviation is that the str operand was parsed by fmtstr() (its escape sequences
-            # vanish / format its characters); the splice of THAT FmtStr is exact
-            cs = wire.cells_of_chunks(c["f"])
-            pc = cells(fmtstr(c["new"][1]))
-            start = len(cs) if c["op"] == "append" else c["start"]
-            end = start if c.get("end") is None else c["end"]
-            parsed = cs[:start] + pc + cs[end:]
-            if got == parsed and rs == "".join(ch for ch, _ in parsed) and rl == len(parsed):
-                fp = "D27"
+        if c["new"][0] == "s" and "\x1b[" in c["new"][1] and unchanged and model_reply is not None \
+                and model_reply.startswith("ok "):
+            # D27 footprint: the only deviation is that the str operand was parsed (its escape sequences vanish / format
+            # its characters): the real result equals, run for run, what the Lean model (its own parser) returns for the
+            # same request, and .s / len() agree with that value; operands and their memoised views are unchanged
+            try:
+                want = wire.cells_of_chunks(wire.dec_fmt(model_reply[3:]))
+                if reply_fmt(r) == model_reply and got == want and rs == "".join(ch for ch, _ in want) and rl == len(want):
+                    fp = "D27"
+            except Exception:  # noqa: BLE001
+                fp = None
         return ("%s: characters/formatting differ: got %r expected %r" % (c["op"], got, exp), fp)
     text = "".join(ch for ch, _ in exp)
     if rs != text:
@@ -207,6 +225,8 @@ def footprint(c, what):
 
 
 def nontrivial(c):
+    if c["op"] == "setitem":
+        return True
     k, v = c["new"]
     has_new = len(v) > 0 if k == "s" else any(s for s, _ in v)
     if c["op"] == "append":
@@ -216,8 +236,8 @@ def nontrivial(c):
 
 
 def tag(c):
-    if c["op"] == "append":
-        return "append"
+    if c["op"] in ("append", "setitem"):
+        return c["op"]
     n = sum(len(s) for s, _ in c["f"])
     if c["end"] is None:
         return "insert" + ("-past-end" if c["start"] > n else "")
@@ -228,15 +248,36 @@ def tag(c):
     return "replace" if c["start"] < c["end"] else "splice-empty-range"
 
 
+def model_replies(ctx, cases):
+    """the Lean model's reply per case (None when the driver is unavailable: then nothing is attributed to D27)"""
+    try:
+        import lib
+        return lib.run_driver([line(c) for c in cases])
+    except Exception as e:  # noqa: BLE001
+        ctx.note("model replies unavailable, no case is attributed to D27: %r" % (e,))
+        return [None] * len(cases)
+
+
+def judge(ctx, cases, impl_out=None, tagfn=None):
+    model = model_replies(ctx, cases)
+    for i, c in enumerate(cases):
+        w = oracle(c, model[i])
+        ctx.count(c, nontrivial=nontrivial(c) if tagfn else True,
+                  tag=(tag(c) + ("/esc-str" if c["new"][0] == "s" and "\x1b" in c["new"][1] else "")) if tagfn else "search")
+        if w:
+            fp = w[1]
+            if fp is not None and impl_out is not None and model[i] is not None and impl_out[i] != model[i]:
+                fp = None       # model and code disagree on this very case: judge it without the footprint
+            ctx.violation(w[0], c, fp)
+            if not tagfn and len([v for v in ctx.violations if v["footprint"] is None]) > 50:
+                return
+
+
 def check(ctx):
     cases = mk_cases(ctx)
     # exact comparison: the model must produce the same runs (texts and attribute dicts), not only the same cells
-    ctx.tie("C09/splice", cases, line, impl)
-    for c in cases:
-        w = oracle(c)
-        ctx.count(c, nontrivial=nontrivial(c), tag=tag(c) + ("/esc-str" if c["new"][0] == "s" and "\x1b" in c["new"][1] else ""))
-        if w:
-            ctx.violation(w[0], c, w[1])
+    impl_out = ctx.tie("C09/splice", cases, line, impl)
+    judge(ctx, cases, impl_out, tagfn=True)
 
 
 def search(ctx):
@@ -244,13 +285,7 @@ def search(ctx):
     if ctx.thorough:
         return
     ctx.thorough = True
-    for c in mk_cases(ctx):
-        w = oracle(c)
-        ctx.count(c, tag="search")
-        if w:
-            ctx.violation(w[0], c, w[1])
-            if len(ctx.violations) > 50:
-                return
+    judge(ctx, mk_cases(ctx))
 
 
 def replay(payload):
